@@ -153,7 +153,8 @@ std::string gen_compound_arg(Rng& r, bool* is_null) {
     static const char* const bad[] = {"", "h2o", "2H", "Xx2", "H2O)", "(H2O", "H 2O", "H1.2.3", "H0", "H#", "(H2O)2", "((Fe)2O3)0.5",
                                       "He0.0", "C6H12O6(", "()", "(())", "A", "Uuo", "H2O ", ".5H", "H..5", "H-2", "Ca5(PO4)3F",
                                       "SiO2", "Jj", "HeLLo", "Fe2O3Fe2O3Fe2O3Fe2O3Fe2O3Fe2O3Fe2O3Fe2O3Fe2O3Fe2O3Fe2O3Fe2O3", "H1e5",
-                                      "H1000000000000000000000000000000000000", "(H)0", "(H)1.1.1", "(H2O)0.0", "O2(", ")O2(", "Not a compound"};
+                                      "H1000000000000000000000000000000000000", "(H)0", "(H)1.1.1", "(H2O)0.0", "O2(", ")O2(", "Not a compound",
+                                      "Rf", "RfSg9", "DbBh2", "H2Rf", "(Bh)2", "Lr", "Ca(OH)0", "Ca(OH)1.2.3", "Mg((CH3)0N)2"};
     return maybe_long(r, bad[r.below(sizeof bad / sizeof bad[0])]);
   }
   if (c < 95) return maybe_long(r, mutate_string(r, r.chance(1, 2) ? gen_formula(r, 0) : std::string(g_nist_names[0] ? g_nist_names[r.below(count_names(g_nist_names))] : "Air")));
